@@ -83,7 +83,9 @@ Record mon := {
   mo_served : list ((mid * peer) * nat);   (* copies served through IWANT per (id, peer) *)
   mo_lastpub : list (topic * Z);           (* observed time of the last publication per topic *)
   mo_view : tview;                         (* C19: the view rebuilt from the trace so far *)
-  mo_delivered : list mid                  (* C19: ids that had a DELIVER_MESSAGE event *)
+  mo_delivered : list mid;                 (* C19: ids that had a DELIVER_MESSAGE event *)
+  mo_hb : nat;                             (* heartbeats seen so far *)
+  mo_born : list (mid * nat)               (* per id: the number of heartbeats seen when it first showed up in the message cache *)
 }.
 
 Definition msg_outs (o : list gout) : list (peer * mid) :=
@@ -126,6 +128,10 @@ Definition mon_step (ign : nat -> bool) (P : gparams) (m : mon) (st : gstepr) : 
                                     && negb (memb p (aget_l t (fanout s)))   (* an existing fanout member is only dropped at the next heartbeat *)
                                     && below sc (pPublishThr (gCore P)) p) R) then Some 95%nat
           else None
+        (* flood publishing: the node's own message goes to EVERY topic peer that is direct or at / above the publish threshold *)
+        else if hit 69%nat (gFlood P && (match m_from msg with None => true | _ => false end) && negb (memb (m_id msg) (seen g))
+                && existsb (fun p => has_queue g p && negb (excl p) && (memb p (direct s) || negb (below sc (pPublishThr (gCore P)) p))
+                                     && negb (memb p R)) tm) then Some 69%nat
         else if hit 95%nat (gFlood P && (match m_from msg with None => true | _ => false end)
                 && existsb (fun p => negb (memb p (direct s)) && below sc (pPublishThr (gCore P)) p) R) then Some 95%nat
         else None
@@ -154,6 +160,14 @@ Definition mon_step (ign : nat -> bool) (P : gparams) (m : mon) (st : gstepr) : 
                              | OIHave p t ids =>
                                  Nat.ltb (gMaxIHaveLen P) (length ids)
                              | _ => false end) out) then Some 171%nat
+        (* an id is advertised only during the first HistoryGossip heartbeats after it entered the cache - heartbeats during which
+           the node had nobody to talk to count as well *)
+        else if hit 179%nat (existsb (fun x => match x with
+                                  | OIHave _ _ ids =>
+                                      existsb (fun i => match aget i (mo_born m) with
+                                                        | Some b => Nat.leb (gHistGossip P) (mo_hb m - b)
+                                                        | None => false end) ids
+                                  | _ => false end) out) then Some 179%nat
         else if hit 172%nat (existsb (fun x => match x with
                                   | OIHave p t ids =>
                                       negb (memb p (aget_l t (tmap s))) || memb p (direct s) || negb (speaks_mesh s p)
@@ -171,7 +185,14 @@ Definition mon_step (ign : nat -> bool) (P : gparams) (m : mon) (st : gstepr) : 
                    | _, _ => false
                    end) (fanout s)) then Some 60%nat
         else None
-    | GCore (ORecvGraft p _) | GCore (ORecvPrune p _) | GRecvIDontWant p _ =>
+    | GRecvIDontWant p _ =>
+        (* one RPC makes the node remember at most MaxIDontWantLength new ids for the peer, however they are spread over its entries *)
+        let before := map fst (match aget p (unwanted g) with Some l => l | None => [] end) in
+        let fresh := filter (fun i => negb (memb i before)) (aget_l p (gn_unwanted (gs_snap st))) in
+        if hit 91%nat (negb (accept_from P sc g p) && negb (match out with [] => true | _ => false end)) then Some 91%nat
+        else if hit 177%nat (Nat.ltb (gMaxIDWLen P) (length fresh)) then Some 177%nat
+        else None
+    | GCore (ORecvGraft p _) | GCore (ORecvPrune p _) =>
         if hit 91%nat (negb (accept_from P sc g p) && negb (match out with [] => true | _ => false end)) then Some 91%nat else None
     | _ => None
     end in
@@ -233,7 +254,9 @@ Definition mon_step (ign : nat -> bool) (P : gparams) (m : mon) (st : gstepr) : 
                   | GPublish msg _ => aset (m_topic msg) (now s) (mo_lastpub m)
                   | _ => mo_lastpub m end in
   (v3, {| mo_truth := g''; mo_asked := asked'; mo_served := served'; mo_lastpub := lastpub';
-          mo_view := view'; mo_delivered := delivered_now ++ mo_delivered m |}).
+          mo_view := view'; mo_delivered := delivered_now ++ mo_delivered m;
+          mo_hb := match gs_op st with GHeartbeat _ _ _ => S (mo_hb m) | _ => mo_hb m end;
+          mo_born := fold_left (fun acc i => match aget i acc with Some _ => acc | None => aset i (mo_hb m) acc end) (gn_cache (gs_snap st)) (mo_born m) |}).
 
 Section ForProperty.
 Variable which : nat.   (* 6 -> C06, 9 -> C09, 17 -> C17, 0 -> all *)
@@ -287,6 +310,6 @@ Fixpoint exec (P : gparams) (g : gstate) (m : mon) (l : list gstepr) (idx : nat)
 
 Definition check_gcase_for (c : gcase) : verdict :=
   if negb (valid_params (gCore (gc_params c))) then VMismatch 0 99
-  else exec (gc_params c) (ginit (gc_params c)) {| mo_truth := ginit (gc_params c); mo_asked := []; mo_served := []; mo_lastpub := []; mo_view := tview0; mo_delivered := [] |} (gc_steps c) 0 None.
+  else exec (gc_params c) (ginit (gc_params c)) {| mo_truth := ginit (gc_params c); mo_asked := []; mo_served := []; mo_lastpub := []; mo_view := tview0; mo_delivered := []; mo_hb := 0; mo_born := [] |} (gc_steps c) 0 None.
 End ForProperty.
 Definition check_gcase := check_gcase_for 0.
